@@ -57,6 +57,11 @@ type caseSpec struct {
 	PPS    string      `json:"pps_hex"`
 	ASC    string      `json:"asc_hex"`
 	Muxer  bool        `json:"through_muxer"`
+	// LateParamSets: the packetizers / muxer are built while the stream's metadata
+	// holds no SPS/PPS yet (SDP without sprop-parameter-sets); they are filled in
+	// afterwards, before the first frame, the way the RTP depacketizer does when
+	// it meets in-band parameter sets.
+	LateParamSets bool `json:"late_parameter_sets,omitempty"`
 	Frames []frameSpec `json:"frames"`
 }
 
@@ -149,6 +154,14 @@ var errInfra = fmt.Errorf("infrastructure")
 // produce runs the case through ipchub and returns the transport stream.
 func produce(c *caseSpec) (out []byte, err error) {
 	vm := &codec.VideoMeta{Codec: "H264", Sps: mustHex(c.SPS), Pps: mustHex(c.PPS)}
+	if c.LateParamSets {
+		vm = &codec.VideoMeta{Codec: "H264"}
+	}
+	fill := func() {
+		if c.LateParamSets {
+			vm.Sps, vm.Pps = mustHex(c.SPS), mustHex(c.PPS)
+		}
+	}
 	am := &codec.AudioMeta{Codec: "AAC", Sps: mustHex(c.ASC)}
 	var buf bytes.Buffer
 	w, err := mpegts.NewWriter(&buf)
@@ -172,6 +185,7 @@ func produce(c *caseSpec) (out []byte, err error) {
 	if !c.Muxer {
 		vp := mpegts.NewH264Packetizer(vm, w)
 		ap := mpegts.NewAacPacketizer(am, w)
+		fill()
 		for _, f := range c.Frames {
 			fr := mk(f)
 			if f.Audio {
@@ -194,6 +208,7 @@ func produce(c *caseSpec) (out []byte, err error) {
 	if err != nil {
 		return nil, err
 	}
+	fill()
 	for _, f := range c.Frames {
 		mx.WriteFrame(mk(f))
 	}
